@@ -36,13 +36,26 @@ func known(it *absint.Interp, t *absint.Term) (val bool, ok bool) {
 
 // compoundAssumption is the product of the path's compound branch conditions (those that are not a single atom or
 // its negation, which the interpreter has already turned into bindings): a 0/1 term that is 1 on this path.
-func compoundAssumption(it *absint.Interp) *absint.Term {
+func compoundAssumption(it *absint.Interp, about *absint.Term) *absint.Term {
 	asm := absint.TInt(1)
 	n := 0
+	rel := about.Syms()
 	for _, g := range it.Guards {
 		c := it.ApplyTerm(g.Cond)
 		if _, isC := c.IsConst(); isC || !c.IsPred() {
 			continue
+		}
+		if len(rel) > 0 {
+			// only the conditions that speak about the symbols of the question
+			shared := false
+			for a := range c.Syms() {
+				if rel[a] {
+					shared = true
+				}
+			}
+			if !shared {
+				continue
+			}
 		}
 		if lo, hi := c.Bounds(); lo.Sign() < 0 || hi.Cmp(big.NewInt(1)) > 0 {
 			continue
@@ -69,7 +82,7 @@ func entailed(it *absint.Interp, a *absint.Term) tri {
 	if !a.IsPred() {
 		return triUnknown
 	}
-	asm := compoundAssumption(it)
+	asm := compoundAssumption(it, a)
 	if asm == nil {
 		return triUnknown
 	}
